@@ -103,29 +103,71 @@ def check(ctx):
     r1 = Rule("C03-D1-attribute-predicate", "D1",
               "is_tauri_command = attrs.any(|a| (a.path.segments.len()==2 ∧ segments[0]==\"tauri\" ∧ segments[1]==\"command\") ∨ a.path.is_ident(\"command\"))",
               "a wider predicate generates wrappers for non-commands; a narrower one drops #[command] or #[tauri::command(...)] functions")
-    fn = S.fn("CommandParser", "is_tauri_command")
-    want = {frozenset([("len", "==", "2"), ("seg", 0, "==", "tauri"), ("seg", 1, "==", "command")]), frozenset([("is_ident", "command")])}
-    if fn is None:
+    # read from the type-checked body: the accepting paths of the per-attribute predicate, wherever it is written (a closure handed to `any`,
+    # or the body of a loop over the attributes with an early `return true`)
+    from predtable import accept_paths, len_range, positive
+    roots = P.find("CommandParser::is_tauri_command")
+    if not roots:
         r1.bad(V(r1.id, "<anchor>", "missing:is_tauri_command", "predicate not found"))
     else:
-        clos = [e for e in walk_block(fn.body) if e.get("k") == "mcall" and e["method"] in ("any", "all", "find", "filter") and e["args"] and e["args"][0].get("k") == "closure"]
-        if len(clos) != 1 or clos[0]["method"] != "any":
-            r1.bad(V(r1.id, "CommandParser::is_tauri_command", "quantifier:%s" % ",".join(c["method"] for c in clos), "the predicate must hold for ANY attribute of the function"))
-        else:
-            recv = expr_text(clos[0]["recv"])
-            if not recv.endswith(".attrs.iter()"):
-                r1.bad(V(r1.id, "CommandParser::is_tauri_command", "receiver:%s" % recv, "the predicate does not range over the function's attributes"))
-            body = clos[0]["args"][0]["body"]
-            while body.get("k") == "block" and len(body["stmts"]) == 1 and body["stmts"][0].get("k") == "expr":
-                body = body["stmts"][0]["e"]
-            got = set(atoms_dnf(body))
-            if got == want:
-                r1.ok("DNF = {len==2 ∧ seg0==tauri ∧ seg1==command} ∨ {is_ident(command)}")
+        f0 = roots[0]
+        cands = []
+        for k_ in P.family(f0.id):
+            if "{promoted" in k_:
+                continue
+            g_ = P.fns[k_]
+            aps = accept_paths(P, g_, "true")
+            if aps and any(a_["seg"] for a_ in aps):
+                cands.append((g_, aps))
+        if len(cands) != 1:
+            r1.bad(V(r1.id, "CommandParser::is_tauri_command", "predicate-bodies:%d" % len(cands), "expected exactly one body that tests attribute paths, found %d" % len(cands)))
+        for (g_, aps) in cands[:1]:
+            kinds = set()
+            bad = []
+            for a_ in aps:
+                segs = {k2: positive(v2) for k2, v2 in a_["seg"].items()}
+                lo, hi = len_range(a_["len"])
+                if a_["other"] or a_["opaque_value"] or a_.get("kind"):
+                    bad.append("opaque:%s" % ";".join(a_["other"] + ["%s=%s" % (k2[0][:30], k2[1]) for k2 in a_.get("kind", [])])[:70])
+                elif segs.get("is_ident") == "command":
+                    kinds.add("bare")
+                elif segs.get(0) == "tauri" and segs.get(1) == "command" and (lo, hi) == (2, 2):
+                    kinds.add("qualified")
+                else:
+                    bad.append("len%s-%s:%s" % (lo, hi, sorted((str(k2), v2) for k2, v2 in segs.items())))
+            if bad or kinds != {"bare", "qualified"}:
+                r1.bad(V(r1.id, "CommandParser::is_tauri_command", "dnf:+%s:-%s" % (sorted(set(bad)), sorted({"bare", "qualified"} - kinds)),
+                         "attribute predicate differs from the documented one: unexpected accepting alternatives %s, missing %s" % (sorted(set(bad)), sorted({"bare", "qualified"} - kinds))))
             else:
-                extra = got - want
-                miss = want - got
-                r1.bad(V(r1.id, "CommandParser::is_tauri_command", "dnf:+%s:-%s" % (sorted(map(sorted, extra)), sorted(map(sorted, miss))),
-                         "attribute predicate differs from the documented one: unexpected disjuncts %s, missing %s" % (sorted(map(sorted, extra)), sorted(map(sorted, miss)))))
+                r1.ok("accepting alternatives = {len==2 ∧ seg0==tauri ∧ seg1==command} ∨ {is_ident(command)}")
+            # quantifier: ANY attribute of the function
+            if g_ is not f0:
+                anys = [c for c in f0.calls if c.bb in f0.reach_blocks and c.args and (lambda o_: o_[0] in ("aggr", "const") and isinstance(o_[1], dict) and o_[1].get("closure") == g_.id)(f0.origin(c.args[-1]))]
+                if len(anys) == 1 and anys[0].name == "any" and "ItemFn.attrs" in f0.describe_origin(f0.origin(anys[0].args[0]), deep=6):
+                    r1.ok("the predicate is applied with Iterator::any over the function's attributes")
+                else:
+                    r1.bad(V(r1.id, "CommandParser::is_tauri_command", "quantifier:%s" % ",".join(sorted(c.name or "?" for c in anys)), "the predicate must hold for ANY attribute of the function"))
+            else:
+                # loop form: accepting return inside a loop over attrs, `false` only once the iterator is exhausted
+                srcs = []
+                for b_ in sorted(f0.reach_blocks):
+                    for st in f0.blocks[b_]["stmts"]:
+                        if "lhs" in st and st["lhs"]["l"] == 0 and (st.get("rv") or {}).get("k") == "use" and (st["rv"]["op"].get("const") or {}).get("bool") is True:
+                            # the accepting exit leaves the loop, so it is not *in* it: it is dominated by `next() = Some(attr)` of the attribute iterator
+                            for (a2, lab2) in f0.edge_dominators(b_):
+                                o2, out2 = f0.cond_struct(a2, lab2)
+                                if o2[0] == "call" and o2[1].name == "next" and out2 == "Some":
+                                    srcs.append(f0.describe_origin(f0.origin(o2[1].args[0]), deep=6))
+                rej = []
+                for b_ in sorted(f0.reach_blocks):
+                    for st in f0.blocks[b_]["stmts"]:
+                        if "lhs" in st and st["lhs"]["l"] == 0 and (st.get("rv") or {}).get("k") == "use" and (st["rv"]["op"].get("const") or {}).get("bool") is False:
+                            rej.append(b_)
+                rej_ok = bool(rej) and all(any(txt_.endswith("=None") and "next" in txt_ for txt_ in f0.must_conditions(b_)) for b_ in rej)
+                if srcs and all("ItemFn.attrs" in s_ for s_ in srcs) and rej_ok:
+                    r1.ok("the predicate is applied to every attribute in a loop (true on the first match, false after the last)")
+                else:
+                    r1.bad(V(r1.id, "CommandParser::is_tauri_command", "quantifier:loop:%s" % ("no-loop" if not srcs else "reject-inside-loop" if not rej_ok else "source"), "the predicate must hold for ANY attribute of the function"))
     r1.require_floor(1, "predicate")
     rules.append(r1)
 
